@@ -315,12 +315,15 @@ func (b *Balloon) QueryDigestMembershipConsistency(keyDigest hashing.Digest, ver
 	var err error
 	proof.Hasher = b.hasherF()
 	proof.KeyDigest = keyDigest
-	proof.QueryVersion = version
 	proof.CurrentVersion = b.version - 1
 
+	// a query for a version the log has not reached yet is answered for the
+	// current one, and the answer has to say so: the wire form rebuilds the
+	// history proof from (ActualVersion, QueryVersion)
 	if version > proof.CurrentVersion {
 		version = proof.CurrentVersion
 	}
+	proof.QueryVersion = version
 
 	proof.HyperProof, err = b.hyperTree.QueryMembership(keyDigest)
 	if err != nil {
